@@ -7,10 +7,11 @@ CONSTANTS
   Handles <- U_Handles
   DepSets <- U_DepSets
   HandlerSeqs <- U_HSeqs
-  UpRegs <- U_UpRegs
+  UpProgs <- U_UpProgs
+  CRProg <- U_CR
   QuitOn = TRUE
   QuitDeferred = FALSE
-  DefCap = 3
+  DefCap = 2
   D = 14
 INIT Init
 NEXT Next
